@@ -482,6 +482,40 @@ func scenCodec(rep *Report, tier string, seed int64) {
 				rep.Violate("codec:roundtrip", "re-encoding an accepted batch does not decode to the same transactions: "+raw, "")
 			}
 		}
+		// the encoders against the Lean model of them (Pegnet/JsonEnc.lean — the subject of the
+		// round-trip theorem): what json.Marshal writes for the decoded batch, addresses as hex
+		if uerr == nil {
+			hasMeta := len(tb.Metadata) > 0
+			// (a decoded transaction holds its absent metadata as an empty RawMessage inside the
+			// interface value; the batch is rebuilt from the decoded fields without it)
+			clean := fat2.TransactionBatch{Version: tb.Version}
+			for _, tx := range tb.Transactions {
+				if rm, isRaw := tx.Metadata.(json.RawMessage); tx.Metadata != nil && !(isRaw && len(rm) == 0) {
+					hasMeta = true
+				}
+				clean.Transactions = append(clean.Transactions, fat2.Transaction{Input: tx.Input, Transfers: tx.Transfers, Conversion: tx.Conversion})
+			}
+			if !hasMeta {
+				want := "refused"
+				if re, err := json.Marshal(clean); err == nil {
+					text := string(re)
+					for _, tx := range tb.Transactions {
+						text = strings.ReplaceAll(text, `"`+tx.Input.Address.String()+`"`, `"`+hx(tx.Input.Address[:])+`"`)
+						for _, tr := range tx.Transfers {
+							text = strings.ReplaceAll(text, `"`+tr.Address.String()+`"`, `"`+hx(tr.Address[:])+`"`)
+						}
+					}
+					want = "ok " + text
+				}
+				line := "encode " + strings.TrimPrefix(TxLine(entry, EntryTime(20).Unix()), "tx ")
+				rep.Count("codec:encoded-by-model:" + strings.Fields(want)[0])
+				if ans := m.Ask(line); ans != want {
+					path := WriteReplay(rep.Property, "codec-encode", Replay{Property: rep.Property, Scenario: "codec", Seed: seed,
+						What: "fat2's JSON encoders and the model of them disagree", Extra: map[string]interface{}{"content": raw, "impl": want, "model": ans}})
+					rep.Disagree("json-encode", fmt.Sprintf("impl=%s model=%s content=%s", want, ans, raw), path)
+				}
+			}
+		}
 		// the decoded form through the model: Validate(height) = validAt
 		if uerr == nil {
 			tb.Entry = entry
